@@ -118,6 +118,8 @@ class Runs:
                 continue
             if p.tainted:
                 continue
+            if [u for u in p.unknowns if unknown_ok is None or not unknown_ok(u)]:
+                continue       # a path through a construct the interpreter does not model is never a refutation
             for f in check(p, 'unroll'):
                 f.path = p
                 w = find_witness(p, f)
